@@ -166,29 +166,35 @@ theorem evalSlots_dep : ∀ (rs : List RExp) (xs : List Name) (seen : List Name)
         | nil => simp only [slotDep, seqDep, hk, evalSlots_dep rs [] seen st1 ss' st2' hes]
         | cons x xs => simp only [slotDep, seqDep, hk, evalSlots_dep rs xs (x :: seen) st1 ss' st2' hes]
 
-theorem bindAll_spec : ∀ (xs : List Name) (rd : List Bool) (vs : List Val) (st : St), rd.any id = false →
+/-- the stores of the two-phase multi-define: new variables are declared, variables that are only redeclared are
+    assigned in place (since commits 8bd8040 / 6ebc898 of the repository) — exactly the specification's second phase -/
+theorem bindAll_spec : ∀ (xs : List Name) (rd : List Bool) (vs : List Val) (st : St),
     bindAll share st xs rd vs = Spec.declareAll st xs rd vs
-  | [], _, _, _, _ => by simp [bindAll, Spec.declareAll]
-  | _ :: _, [], _, _, _ => by simp [bindAll, Spec.declareAll]
-  | _ :: _, _ :: _, [], _, _ => by simp [bindAll, Spec.declareAll]
-  | x :: xs, r :: rd, v :: vs, st, hrd => by
-    simp only [List.any_cons, id, Bool.or_eq_false_iff] at hrd
-    obtain ⟨hr0, hrd⟩ := hrd
-    subst hr0
-    simp only [bindAll, Spec.declareAll, Bool.false_and, Bool.false_eq_true, if_false]
-    exact bindAll_spec xs rd vs _ hrd
+  | [], _, _, _ => by simp [bindAll, Spec.declareAll]
+  | _ :: _, [], _, _ => by simp [bindAll, Spec.declareAll]
+  | _ :: _, _ :: _, [], _ => by simp [bindAll, Spec.declareAll]
+  | x :: xs, r :: rd, v :: vs, st => by
+    cases r with
+    | false =>
+      simp only [bindAll, Spec.declareAll, Bool.false_and, Bool.false_eq_true, if_false]
+      exact bindAll_spec xs rd vs _
+    | true =>
+      simp only [bindAll, Spec.declareAll, share_multiDefineRedeclAssigns, Bool.and_self, if_true, bind, Except.bind]
+      cases st.var x with
+      | error e => rfl
+      | ok l =>
+        simp only
+        cases st.write l v with
+        | error e => rfl
+        | ok st1 => exact bindAll_spec xs rd vs st1
 
-/-- `x1, x2, … := r1, r2, …` (two-phase since commit 3e30c22 of the repository) -/
-theorem multidefY_spec (st : St) (xs : List Name) (rd : List Bool) (zs : List Val) (rs : List RExp) (inBody reexec : Bool)
-    (h : sopClass inBody (.multidef xs rd zs rs) = none) :
+/-- `x1, x2, … := r1, r2, …` (two-phase since commit 3e30c22 of the repository; redeclared variables assigned in
+    place, all sources copied first, since 8bd8040) -/
+theorem multidefY_spec (st : St) (xs : List Name) (rd : List Bool) (zs : List Val) (rs : List RExp) (reexec : Bool) :
     multidefY share reexec st xs rd zs rs = Spec.multidef st xs rd rs := by
-  have hrd : rd.any id = false := by
-    cases hc : rd.any id with
-    | false => rfl
-    | true => simp [sopClass, hc] at h
   unfold multidefY Spec.multidef
-  simp only [share_shortcutGuardsSingle, share_multiDefineTemps, Bool.not_true, Bool.false_and, Bool.false_eq_true,
-    if_false, if_true, bind, Except.bind]
+  simp only [share_shortcutGuardsSingle, share_multiDefineTemps, share_multiDefineRedeclCopies, Bool.not_true, Bool.false_and,
+    Bool.and_false, Bool.false_eq_true, if_false, if_true, bind, Except.bind]
   obtain ⟨hok, herr⟩ := evalSlots_spec rs st
   cases he : evalSlots st rs with
   | error e => simp [herr e he]
@@ -196,6 +202,6 @@ theorem multidefY_spec (st : St) (xs : List Name) (rd : List Bool) (zs : List Va
     obtain ⟨ss, st1⟩ := p
     obtain ⟨_, vs, hrs, hall⟩ := hok ss st1 he
     simp only [hall, hrs]
-    exact bindAll_spec xs rd vs st1 hrd
+    exact bindAll_spec xs rd vs st1
 
 end YaegiVerif.Share
